@@ -64,3 +64,8 @@ wasm_bindgen_test::wasm_bindgen_test_configure!(run_in_browser);
 
 #[cfg(feature = "uniffi")]
 uniffi::setup_scaffolding!();
+
+#[cfg(all(kani, lumina_verif))]
+mod verif_kani {
+    include!(concat!(env!("LUMINA_VERIF_DIR"), "/kani/types/mod.rs"));
+}
